@@ -85,15 +85,25 @@ structure CutOut (α : Type) where
   labels : List Nat
   dendro : Option (Dendro α)
 
+/-- the contract of `np.argsort(-sizes)`: a permutation of the positions that puts the sizes in
+    non-increasing order (nothing is assumed about the order among equal sizes) -/
+def SortsDesc (argsort : List Nat → List Nat) : Prop :=
+  ∀ sizes : List Nat, (argsort sizes).Perm (List.range sizes.length) ∧
+    (argsort sizes).Pairwise (fun a b => sizes.getD b 0 ≤ sizes.getD a 0)
+
+/-- `clusters = list(cluster.values())`, reordered by `np.argsort(-sizes)` when `sort_clusters` -/
+def orderedClusters (cluster : Dict (List Nat)) (sortClusters : Bool) (argsort : List Nat → List Nat) :
+    List (List Nat) :=
+  let clusters0 := cluster.values
+  if sortClusters then (argsort (clusters0.map List.length)).map (fun i => clusters0.getD i [])
+  else clusters0
+
 /-- `get_labels(dendrogram, cluster, sort_clusters, return_dendrogram)`.
-    `argsort sizes` stands for `np.argsort(-sizes)`: a permutation putting the sizes in non-increasing order. -/
+    `argsort sizes` stands for `np.argsort(-sizes)` (`SortsDesc`). -/
 def getLabels (D : Dendro α) (cluster : Dict (List Nat)) (sortClusters retD : Bool)
     (argsort : List Nat → List Nat) : Except PyErr (CutOut α) := do
   let n := D.length + 1
-  let clusters0 := cluster.values
-  let clusters :=
-    if sortClusters then (argsort (clusters0.map List.length)).map (fun i => clusters0.getD i [])
-    else clusters0
+  let clusters := orderedClusters cluster sortClusters argsort
   let labels ← assignAll 0 clusters (List.replicate n 0)
   if retD then
     let st0 : RedState α :=
@@ -108,7 +118,7 @@ def getLabels (D : Dendro α) (cluster : Dict (List Nat)) (sortClusters retD : B
 /-- the stable permutation that sorts sizes in non-increasing order (what numpy returns on short arrays) -/
 def insertDesc (sizes : List Nat) (t : Nat) : List Nat → List Nat
   | [] => [t]
-  | u :: us => if sizes.getD u 0 < sizes.getD t 0 then t :: u :: us else u :: insertDesc sizes t us
+  | u :: us => if sizes.getD u 0 ≤ sizes.getD t 0 then t :: u :: us else u :: insertDesc sizes t us
 
 def argsortDesc (sizes : List Nat) : List Nat :=
   (List.range sizes.length).foldr (fun t acc => insertDesc sizes t acc) []
@@ -141,19 +151,29 @@ def cutHeight (D : Dendro α) (n nClusters : Nat) (threshold : Option α) : Exce
       | some thr => .ok (some (if cut < thr then thr else cut))   -- max(cut, threshold)
   else .ok none
 
+/-- the dendrogram that is cut: reordered by height when `return_dendrogram` and the heights are not sorted -/
+def cutInput (D0 : Dendro α) (retD : Bool) : Except PyErr (Dendro α) :=
+  if retD && !heightsSorted D0 then reorderDendrogram D0 else pure D0
+
+/-- defaults of `n_clusters` (2, or `n` when only a threshold is given) and `check_n_clusters` -/
+def effectiveK (n : Nat) (nClusters : Option Nat) (threshold : Option α) : Except PyErr Nat :=
+  match nClusters with
+  | none => pure (if threshold.isNone then 2 else n)
+  | some k => do checkNClusters k n 1; pure k
+
+/-- `cut is None or dendrogram[t][2] < cut` -/
+def belowCut (cut : Option α) (r : Row α) : Bool :=
+  match cut with
+  | none => true
+  | some c => decide (r.h < c)
+
 def cutStraight (D0 : Dendro α) (nClusters : Option Nat) (threshold : Option α)
     (sortClusters retD : Bool) (argsort : List Nat → List Nat) : Except PyErr (CutOut α) := do
   let n := D0.length + 1
-  let D ← if retD && !heightsSorted D0 then reorderDendrogram D0 else pure D0
-  let k ← match nClusters with
-    | none => pure (if threshold.isNone then 2 else n)
-    | some k => do checkNClusters k n 1; pure k
+  let D ← cutInput D0 retD
+  let k ← effectiveK n nClusters threshold
   let cut ← cutHeight D n k threshold
-  let ok : Row α → List Nat → List Nat → Bool := fun r _ _ =>
-    match cut with
-    | none => true
-    | some c => decide (r.h < c)
-  let cluster ← mergeLoop n ok 0 D (initCluster n)
+  let cluster ← mergeLoop n (fun r _ _ => belowCut cut r) 0 D (initCluster n)
   getLabels D cluster sortClusters retD argsort
 
 end straight
